@@ -18,6 +18,8 @@ import (
 	"flag"
 	"fmt"
 	"math/rand"
+	"runtime"
+	"sync"
 	"time"
 
 	"google.golang.org/protobuf/proto"
@@ -249,12 +251,36 @@ func (t *tracer) guard(f func()) (p string) {
 
 // verify calls the real Verify on the presented message and logs the attempt.
 func (t *tracer) verify(mut string, raw, sig []byte, k keyT, ad [][]byte) {
-	t.nver++
-	var m *signed.Message
-	var err error
+	t.emitVerify(callVerify(mut, raw, sig, k, ad))
+}
+
+// vres is one Verify call and what it returned (no interning: safe to produce concurrently).
+type vres struct {
+	mut      string
+	raw, sig []byte
+	k        keyT
+	ad       [][]byte
+	m        *signed.Message
+	err      error
+	pan      string
+}
+
+func callVerify(mut string, raw, sig []byte, k keyT, ad [][]byte) (r vres) {
+	r = vres{mut: mut, raw: raw, sig: sig, k: k, ad: ad}
+	defer func() {
+		if p := recover(); p != nil {
+			r.pan = fmt.Sprint(p)
+		}
+	}()
 	msg := &cryptopb.SignedMessage{HeaderAndBody: raw, Signature: sig}
-	pan := t.guard(func() { m, err = signed.Verify(msg, k.pub, ad...) })
-	if pan != "" {
+	r.m, r.err = signed.Verify(msg, k.pub, ad...)
+	return r
+}
+
+func (t *tracer) emitVerify(r vres) {
+	t.nver++
+	mut, raw, sig, k, ad, m, err := r.mut, r.raw, r.sig, r.k, r.ad, r.m, r.err
+	if r.pan != "" {
 		t.w.Emit(vt.M{"ev": "panic", "in": "verify:" + mut})
 		return
 	}
@@ -284,6 +310,124 @@ func (t *tracer) verify(mut string, raw, sig []byte, k keyT, ad [][]byte) {
 		ev["retBody"] = t.in.id([]byte("body"), m.Body)
 	}
 	t.w.Emit(ev)
+}
+
+// concurrentTrace: several goroutines sign different messages at the same time, then several
+// goroutines verify them (untouched and touched) at the same time, as the segment verifier and
+// the beacon extender do. Results are collected per goroutine and logged after the join; every
+// outcome is judged exactly like a sequential one. Large associated data makes the hashing phases
+// of the calls overlap.
+func (t *tracer) concurrentTrace(id int, thorough bool) {
+	rng := t.rng
+	t.w.Emit(vt.M{"ev": "reset", "id": id})
+	const G = 8
+	k := t.ecKey()
+	other := t.otherKey(k, true)
+	shared := [][]byte{randBytes(rng, 32<<10+rng.Intn(96<<10)), randBytes(rng, 1+rng.Intn(64<<10))}
+	type signJob struct {
+		h    signed.Header
+		body []byte
+		ad   [][]byte
+		msg  *cryptopb.SignedMessage
+		err  error
+		pan  string
+	}
+	jobs := make([]*signJob, G)
+	for g := range jobs {
+		ad := shared
+		if g%2 == 1 { // own associated data
+			ad = [][]byte{randBytes(rng, 16<<10+rng.Intn(64<<10))}
+		}
+		jobs[g] = &signJob{h: t.genHeader(k, len(concat(ad))), body: t.genBody(), ad: ad}
+		jobs[g].h.SignatureAlgorithm = jobs[0].h.SignatureAlgorithm // one hash function for all
+	}
+	var wg sync.WaitGroup
+	start := make(chan struct{})
+	for _, j := range jobs {
+		wg.Add(1)
+		go func(j *signJob) {
+			defer wg.Done()
+			defer func() {
+				if p := recover(); p != nil {
+					j.pan = fmt.Sprint(p)
+				}
+			}()
+			<-start
+			j.msg, j.err = signed.Sign(j.h, j.body, k.signer, j.ad...)
+		}(j)
+	}
+	close(start)
+	wg.Wait()
+	var ok []*signJob
+	for _, j := range jobs {
+		if j.pan != "" {
+			t.w.Emit(vt.M{"ev": "panic", "in": "sign:concurrent"})
+			continue
+		}
+		if j.err != nil || j.msg == nil {
+			t.w.Emit(vt.M{"ev": "sign", "ok": false, "key": k.id, "raw": 0, "ad": 0, "hdr": 0, "body": 0, "sig": 0,
+				"keyKind": k.kind, "algo": algoName(j.h.SignatureAlgorithm)})
+			continue
+		}
+		t.w.Emit(vt.M{"ev": "sign", "ok": true, "key": k.id, "raw": t.in.id([]byte("raw"), j.msg.HeaderAndBody),
+			"ad": t.in.id([]byte("ad"), concat(j.ad)), "hdr": hdrID(t.in, j.h), "body": t.in.id([]byte("body"), j.body),
+			"sig": t.in.id([]byte("sig"), j.msg.Signature), "keyKind": k.kind, "algo": algoName(j.h.SignatureAlgorithm)})
+		ok = append(ok, j)
+	}
+	if len(ok) == 0 {
+		return
+	}
+	// verification plans are drawn before the goroutines start (the PRNG is not shared)
+	n := 24
+	if thorough {
+		n = 60
+	}
+	type plan struct {
+		mut string
+		j   *signJob
+		ad  [][]byte
+		k   keyT
+	}
+	plans := make([][]plan, G)
+	for g := range plans {
+		for i := 0; i < n; i++ {
+			j := ok[rng.Intn(len(ok))]
+			p := plan{mut: "concurrent-none", j: j, ad: j.ad, k: k}
+			switch rng.Intn(8) {
+			case 0:
+				c := concat(j.ad)
+				p.mut, p.ad = "concurrent-flip-ad-bit", [][]byte{flip(c, rng.Intn(len(c)*8))}
+			case 1:
+				p.mut, p.k = "concurrent-other-key", other
+			case 2:
+				p.mut, p.ad = "concurrent-ad-resplit", t.resplit(j.ad)
+			}
+			plans[g] = append(plans[g], p)
+		}
+	}
+	results := make([][]vres, G)
+	start = make(chan struct{})
+	for g := 0; g < G; g++ {
+		wg.Add(1)
+		go func(g int) {
+			defer wg.Done()
+			<-start
+			for _, p := range plans[g] {
+				results[g] = append(results[g], callVerify(p.mut, p.j.msg.HeaderAndBody, p.j.msg.Signature, p.k, p.ad))
+			}
+		}(g)
+	}
+	close(start)
+	wg.Wait()
+	for g := range results {
+		for _, r := range results[g] {
+			t.emitVerify(r)
+		}
+	}
+	// and once more sequentially: what was signed concurrently must verify
+	for _, j := range ok {
+		t.verify("none", j.msg.HeaderAndBody, j.msg.Signature, k, j.ad)
+	}
 }
 
 func flip(b []byte, bit int) []byte {
@@ -556,10 +700,17 @@ func (t *tracer) oneTrace(id int, thorough bool) {
 func main() {
 	out := flag.String("out", "trace.ndjson", "output trace")
 	n := flag.Int("n", 30, "number of traces")
+	nc := flag.Int("concurrent", 4, "number of traces with concurrent Sign / Verify calls")
 	flag.Parse()
+	if runtime.GOMAXPROCS(0) < 8 {
+		runtime.GOMAXPROCS(8)
+	}
 	t := &tracer{w: vt.NewWriter(*out), in: &interner{m: map[[32]byte]int{}}, rng: vt.Rand(38), keys: mkKeys()}
 	for i := 0; i < *n; i++ {
 		t.oneTrace(i, vt.Thorough())
+	}
+	for i := 0; i < *nc; i++ {
+		t.concurrentTrace(*n+i, vt.Thorough())
 	}
 	t.w.Close()
 	fmt.Printf("traces=%d verifications=%d events=%d\n", *n, t.nver, t.w.N)
